@@ -122,6 +122,9 @@ def run(ctx):
                                 {"DOM": "mask", "FULL": full, "CHUNK": k, "NCHUNK": kmask}))
     nmr = 130 * (8 if quick else 200)
     jobs.append(addrlib.Job("rmask", ["maskr", ctx.seed, nmr], {"DOM": "maskr", "COUNT": nmr}))
+    # the same IPv4 address in different embeddings (::x, ::ffff:x, 2002:x::, 64:ff9b::x, ...), all lengths
+    nm4 = 36 * (12 if quick else 400)
+    jobs.append(addrlib.Job("v4mask", ["maskv4", ctx.seed, nm4], {"DOM": "maskr", "COUNT": nm4}))
     # (ii) mask forms
     lines = ["form %s %d %s" % (d["fam"], d["i"], " ".join(map(str, d["s"]))) for d in rows]
     kf = 4
@@ -156,15 +159,17 @@ def run(ctx):
     ctx.cov["exhaustive"] = True
     ctx.cov["rule"] = ("distinct strings accepted by irc_pton in some configuration or by inet_pton (incl. every mask form text and mutated "
                        "text that reached a parser), among the cases run on the real code; mask pairs are counted in evaluations only")
-    ctx.cov["domains"] = {"mask_pairs": nmask + nmr, "lengths_per_pair": 129, "mask_forms": len(rows),
+    ctx.cov["domains"] = {"mask_pairs": nmask + nmr + nm4, "mask_pairs_ipv4_embeddings": nm4, "lengths_per_pair": 129, "mask_forms": len(rows),
                           "strings_enumerated": nstr, "string_families": [[a, m] for a, m, _ in fams], "mutated_strings": len(muts)}
-    ctx.cov["check_mask_evaluations"] = (nmask + nmr) * 129
+    ctx.cov["check_mask_evaluations"] = (nmask + nmr + nm4) * 129
     ctx.assumptions.append("memory clause: exploration under ASan/UBSan with exact-size heap arguments over the enumerated and "
                            "mutated strings, not a proof; UBSan diagnostics that are not memory errors are recorded only")
     ctx.assumptions.append("documented results = the irc_pton comment in modules/iauth.h and tests/test_iauth.c, generalised "
                            "structurally (Addr!FormAt); network bits are compared on the leading `bits` bits")
-    ctx.assumptions.append("agreement with the standard library is required only where irc_pton(addr, NULL, s, 0) consumes all of s "
-                           "and inet_pton accepts s; compared after mapping IPv4-compatible to IPv4-mapped")
+    ctx.assumptions.append("agreement with the standard library is required where irc_pton(addr, NULL, s, 0) consumes all of s and "
+                           "inet_pton accepts s, and - with trailing text allowed - where the text irc_pton consumed is itself a "
+                           "plain address of the standard syntax (the x of 'x/24' with bits = NULL, of 'x/a', of 'x y'); compared "
+                           "after mapping IPv4-compatible to IPv4-mapped")
     run.finish()
 
 
